@@ -21,12 +21,19 @@ MANIFEST = dict(
          "semantics of write_lines (wl_subline_spec, wl_indent_sum, wl_total: no crash), header-then-body for every file "
          "(wof_header_then_body), and user supplied lines are never read as directives (user_line_protected, "
          "user_line_emitted; witness unprotected_line_loses_text). Table theorems over regenerated AST scans: each emitter's "
-         "line length option and continuation marker, default F_line_length + marker <= 132 (emitter_line_config); both "
+         "line length option, the addend applied to it and the continuation marker, default F_line_length + marker <= 132 "
+         "(emitter_line_config); composed with write_continue every emitter wraps at exactly the value of its language's option, "
+         "so the length bound holds against the OPTION (emitter_respects_option, emitter_line_limit); a call's result does not "
+         "depend on earlier calls (wc_history_free over wcSession); both "
          "user-code branches of _create_splicer pass through _literal_lines (splicer_branches_protect_user_code). The model is "
          "tied to util.py on every run by differential correspondence through the compiled Lean driver (write_continue, "
-         "write_lines, write_output_file, _literal_lines; exhaustive short strings over the directive alphabet, seeded random "
+         "write_lines, write_output_file, _literal_lines, emitter instances, call sequences; exhaustive short strings over the directive alphabet, seeded random "
          "and statement-shaped structured lines); implementation-only oracles search for failing inputs: existential re-reading "
-         "of the physical lines, documented directive table, each language's files depend on their own line-length option only, "
+         "of the physical lines, documented directive table, every write_continue call of real runs (hooked) and statement-shaped "
+         "lines driven through the real emitter instances as their __init__ configured them, judged against the language's option "
+         "(several configurations in one process, small lengths and F_line_length 132), the same line written repeatedly with "
+         "varying line length on one and several instances vs the model's session and vs a fresh process in reverse order, "
+         "each language's files depend on their own line-length option only, "
          "132 columns with identifiers <= 63 characters, and user lines through declaration-level splicer: / splicer_code: "
          "reach the files character for character.",
     design="3 C13, 9.4, 9.9",
@@ -55,6 +62,9 @@ THEOREMS = {
         "Shroud.Lines.wl_subline_spec",
         "Shroud.Lines.wof_header_then_body",
         "Shroud.Lines.emitter_line_config",
+        "Shroud.Lines.emitter_respects_option",
+        "Shroud.Lines.emitter_line_limit",
+        "Shroud.Lines.wc_history_free",
         "Shroud.Lines.user_line_protected",
         "Shroud.Lines.user_line_emitted",
         "Shroud.Lines.unprotected_line_loses_text",
@@ -182,7 +192,12 @@ def oracle_wc(w, linelen, indent, spaces, cont, line):
     r = real_wc(w, linelen, indent, spaces, cont, line)
     if r.startswith("crash"):
         return "write_continue raised %s" % r[6:]
-    phys = common.decs(r[3:])
+    return judge_wc(common.decs(r[3:]), linelen, indent, spaces, cont, line)
+
+
+def judge_wc(phys, linelen, indent, spaces, cont, line):
+    """the physical lines `phys` written for the logical `line`, judged against the length `linelen` the property speaks
+    about (for an emitter: the value of the language's OPTION, whatever self.linelen was at the time)"""
     bodies = []
     for i, p in enumerate(phys):
         if i + 1 < len(phys):
@@ -501,7 +516,9 @@ def run(ctx):
                     break
     # emitter configuration: each language's files depend on its own line-length option only, and no
     # non-comment Fortran line exceeds 132 columns
-    linecfg_oracle(ctx, r, thorough)
+    linecfg_oracle(ctx, r, thorough, drv, ok)
+    # no history: the same line, varying line length / indentation, one instance and several, against a fresh process
+    history_oracle(ctx, r, thorough, drv, ok)
     # user supplied lines (declaration-level splicer:, splicer_code:) reach the files character for character
     literal_oracle(ctx, r, thorough)
     # write_lines crash oracle: logical lines consisting only of directives
@@ -517,6 +534,219 @@ def run(ctx):
         ctx.note("fortran_lines_over_132", over)
 
 
+EMITTER_CODE = {"Wrapc": 0, "Wrapf": 1, "Wrapp": 2, "Wrapl": 3}
+
+
+class WcHook:
+    """Records every write_continue call of real Shroud runs in this process (class, instance, indentation at the time,
+    indentation unit, logical line, text written) and keeps the emitter instances as their __init__ configured them."""
+
+    def __enter__(self):
+        from shroud import util
+        self.util = util
+        self.orig = util.WrapperMixin.write_continue
+        self.calls = []
+        self.inst = {}
+        hook = self
+
+        def write_continue(self_, fp, line, spaces="    "):
+            buf = io.StringIO()
+            ind = getattr(self_, "indent", 0)
+            hook.orig(self_, buf, line, spaces)
+            text = buf.getvalue()
+            fp.write(text)
+            name = type(self_).__name__
+            hook.inst.setdefault(name, self_)
+            hook.calls.append((name, self_, ind, spaces, line, text))
+
+        util.WrapperMixin.write_continue = write_continue
+        return self
+
+    def __exit__(self, *a):
+        self.util.WrapperMixin.write_continue = self.orig
+        return False
+
+    def take(self):
+        calls, inst = self.calls, self.inst
+        self.calls, self.inst = [], {}
+        return calls, inst
+
+
+def nominal(name, inst):
+    """(line length, marker ok) the property speaks about for a language emitter: Fortran files follow F_line_length and
+    continue with `&`, every other language follows C_line_length and has no marker"""
+    o = inst.newlibrary.options
+    if name == "Wrapf":
+        return int(o.F_line_length), inst.cont.strip() == "&"
+    return int(o.C_line_length), inst.cont == ""
+
+
+def judge_call(name, inst, ind, spaces, line, text):
+    """one write_continue call of an emitter, judged against the OPTION of its language"""
+    bound, cont_ok = nominal(name, inst)
+    if not cont_ok:
+        return "emitter %s uses the continuation marker %r" % (name, inst.cont)
+    if not text.endswith("\n"):
+        return "the written text does not end with a newline"
+    if "\n" in line or not all(c in WS for c in spaces):
+        return None
+    return judge_wc(text[:-1].split("\n"), bound, ind, spaces, inst.cont, line)
+
+
+def drive_emitter(inst, ind, spaces, line):
+    """write_continue on a real emitter instance, configured by its own __init__ during a real run"""
+    saved = getattr(inst, "indent", 0)
+    inst.indent = ind
+    fp = io.StringIO()
+    try:
+        inst.write_continue(fp, line, spaces)
+    finally:
+        inst.indent = saved
+    return fp.getvalue()
+
+
+HISTORY_SRC = r"""
+import io, json, sys
+from shroud import util
+cases = json.load(sys.stdin)
+out = [None] * len(cases)
+for k in reversed(range(len(cases))):
+    ll, ind, sp, cont, line = cases[k]
+    class W(util.WrapperMixin):
+        pass
+    w = W(); w.linelen, w.indent, w.cont = ll, ind, cont
+    fp = io.StringIO()
+    try:
+        w.write_continue(fp, line, sp)
+        out[k] = fp.getvalue()
+    except Exception as e:
+        out[k] = "crash " + type(e).__name__
+print(json.dumps(out))
+"""
+
+
+def history_cases(r, n):
+    """the same logical line written several times with different line lengths / indentation: (line, spaces, cont,
+    [(linelen, indent), ...]); every sequence contains a step down and a step up in line length"""
+    out = []
+    for _ in range(n):
+        line = struct_line(r)
+        sp, cont = r.choice(["    ", "  "]), r.choice([" &", "&", ""])
+        ind = r.randrange(0, 3)
+        lls = r.sample([12, 20, 30, 40, 60, 72, 100, 132, 250], 3)
+        seq = [(max(lls), ind), (min(lls), ind), (max(lls), ind), (sorted(lls)[1], ind), (min(lls), ind + 1), (min(lls), ind)]
+        out.append((line, sp, cont, seq))
+    return out
+
+
+def history_oracle(ctx, r, thorough, drv, ok):
+    """write_continue must be a function of (line, linelen, indent, spaces, cont): the same line is written repeatedly
+    with different line lengths on one instance and across instances in this process; every result is judged against the
+    line length of ITS call (implementation only), compared with the Lean model's session (wcSession), and compared with a
+    fresh process that performs the same calls in reverse order on fresh instances."""
+    import json
+    import subprocess
+    import sys
+    cases = history_cases(r, 1500 if thorough else 300)
+    a, b = _mixin(), _mixin()
+    flat, got, reqs, impl = [], [], [], []
+    bad = 0
+    for line, sp, cont, seq in cases:
+        res = []
+        for k, (ll, ind) in enumerate(seq):
+            w = a if k % 2 == 0 else b
+            rr = real_wc(w, ll, ind, sp, cont, line)
+            res.append(rr)
+            flat.append([ll, ind, sp, cont, line])
+            got.append(rr)
+            ctx.count(1)
+            if rr.startswith("crash"):
+                why = "write_continue raised %s" % rr[6:]
+            else:
+                why = judge_wc(common.decs(rr[3:]), ll, ind, sp, cont, line)
+            if why and bad <= 5:
+                if ctx.fail("wc-history:" + why.split(":")[0], "call %d of a sequence on the same line (line lengths %s): %s" % (
+                        k, [q[0] for q in seq], why),
+                        {"sequence": [list(q) for q in seq[:k + 1]], "spaces": sp, "cont": cont, "line": line}):
+                    bad += 1
+        same_ind = [q for q in seq if q[1] == seq[0][1]]
+        reqs.append("wcs %d %s %s %s %s" % (seq[0][1], common.enc(sp), common.enc(cont), common.enc(line), " ".join(str(q[0]) for q in same_ind)))
+        impl.append("|".join(x[3:] if x.startswith("ok ") else x for x, q in zip(res, seq) if q[1] == seq[0][1]))
+        if len(set(res)) > 1:
+            ctx.nontrivial(("history", line))
+    ctx.note("history_sequences", len(cases))
+    if drv.available() and ok:
+        model = drv.run(reqs)
+        dis = [{"request": q, "impl": x, "model": y} for q, x, y in zip(reqs, impl, model) if x != y]
+        if dis:
+            ctx.tie_broken("lines-history-correspondence", dis[:3])
+    # fresh process, reverse order, fresh instances
+    e = dict(os.environ, PYTHONPATH=common.REPO, PYTHONDONTWRITEBYTECODE="1")
+    p = subprocess.run([sys.executable, "-c", HISTORY_SRC], input=json.dumps(flat), stdout=subprocess.PIPE, stderr=subprocess.PIPE, text=True, env=e)
+    if p.returncode:
+        ctx.tie_broken("lines-history-fresh-process", p.stderr[-600:])
+        return
+    fresh = json.loads(p.stdout.strip().split("\n")[-1])
+    diffs = []
+    for c, x, y in zip(flat, got, fresh):
+        y2 = y if y.startswith("crash") else "ok " + common.encs(y[:-1].split("\n"))
+        if x != y2:
+            diffs.append({"call": c, "in_sequence": x, "fresh_process_reverse_order": y2})
+    ctx.note("history_calls_compared_with_fresh_process", len(flat))
+    if diffs:
+        ctx.tie_broken("lines-history-fresh-process", diffs[:3])
+
+
+def emitter_oracle(ctx, r, hook, yaml_text, tag, em_reqs, em_impl, ndrive, libtag):
+    """after one real run under the hook: (a) every write_continue call the run made, (b) `ndrive` statement-shaped lines
+    driven through each emitter instance the run created - all judged against the OPTION of the emitter's language."""
+    calls, inst = hook.take()
+    bad = 0
+    for name, self_, ind, spaces, line, text in calls:
+        if name not in EMITTER_CODE:
+            continue
+        ctx.count(1)
+        why = judge_call(name, self_, ind, spaces, line, text)
+        if why:
+            o = self_.newlibrary.options
+            if ctx.fail("emitter:%s:%s" % (name, why.split(":")[0]),
+                        "%s (C_line_length=%s F_line_length=%s, self.linelen=%s) wrote %r for the logical line %r at indentation %d: %s" % (
+                            name, o.C_line_length, o.F_line_length, self_.linelen, text, line, ind, why),
+                        {"yaml": yaml_text, "emitter": name, "indent": ind, "spaces": spaces, "line": line, "written": text,
+                         "runs_before_in_this_process": tag}):
+                bad += 1
+                if bad > 3:
+                    break
+    for name, self_ in sorted(inst.items()):
+        if name not in EMITTER_CODE:
+            continue
+        o = self_.newlibrary.options
+        bound, _ = nominal(name, self_)
+        dbad = 0
+        for _ in range(ndrive):
+            line = struct_line(r)
+            ind, sp = r.randrange(0, 4), r.choice(["    ", "  "])
+            try:
+                text = drive_emitter(self_, ind, sp, line)
+            except Exception as e:  # noqa
+                ctx.fail("emitter:%s:crash" % name, "write_continue raised %r" % (e,), {"yaml": yaml_text, "emitter": name, "indent": ind, "spaces": sp, "line": line})
+                break
+            ctx.count(1)
+            em_reqs.append("em %d %d %d %d %s %s" % (EMITTER_CODE[name], int(o.C_line_length), int(o.F_line_length), ind, common.enc(sp), common.enc(line)))
+            em_impl.append("ok " + common.encs(text[:-1].split("\n")))
+            if text.count("\n") > 1:
+                ctx.nontrivial(("em", name, libtag, line))
+            why = judge_call(name, self_, ind, sp, line, text)
+            if why and dbad <= 2:
+                if ctx.fail("emitter:%s:%s" % (name, why.split(":")[0]),
+                            "%s as its __init__ configured it (C_line_length=%s F_line_length=%s, self.linelen=%s, cont=%r) wrote %r for the logical line %r "
+                            "at indentation %d; judged against the option of its language (%d): %s" % (
+                                name, o.C_line_length, o.F_line_length, self_.linelen, self_.cont, text, line, ind, bound, why),
+                            {"yaml": yaml_text, "emitter": name, "indent": ind, "spaces": sp, "line": line, "written": text,
+                             "runs_before_in_this_process": tag}):
+                    dbad += 1
+
+
 def continued_comment(tree):
     """(file, line number, text) of the first Fortran comment line that ends with the continuation marker: a comment
     cannot be continued, so whatever follows it lies outside the comment"""
@@ -529,10 +759,25 @@ def continued_comment(tree):
     return None
 
 
-def linecfg_oracle(ctx, r, thorough):
+def linecfg_oracle(ctx, r, thorough, drv=None, ok=False):
+    em_reqs, em_impl = [], []
+    with WcHook() as hook:
+        _linecfg_oracle(ctx, r, thorough, hook, em_reqs, em_impl)
+    ctx.note("emitter_driven_calls", len(em_reqs))
+    if drv is not None and drv.available() and ok:
+        model = drv.run(em_reqs)
+        dis = [{"request": q, "impl": x, "model": y} for q, x, y in zip(em_reqs, em_impl, model) if x != y]
+        if dis:
+            ctx.tie_broken("emitter-correspondence", dis[:3])
+    elif drv is not None:
+        ctx.tie_broken("emitter-correspondence", "driver not built")
+
+
+def _linecfg_oracle(ctx, r, thorough, hook, em_reqs, em_impl):
     from tools import shroudrun
     from tools.gen import libgen
     work = common.scratch()
+    ndrive = 600 if thorough else 150
     try:
         for i in range(4 if thorough else 2):
             lib = libgen.gen_lib(r, name="ll%d" % i, language="c++", wrap={"wrap_python": True, "wrap_lua": True})
@@ -546,7 +791,11 @@ def linecfg_oracle(ctx, r, thorough):
                                            "third\fline with a form feed and more words so that it also is longer than the limit of seventy-two",
                             "return": "zero\twhen empty, otherwise the weighted sum of every one of the values that were passed to the function"}})
             trees = {}
-            for tag, (cl, fl) in {"base": (72, 72), "bigC": (400, 72), "bigF": (72, 120), "smallC": (40, 72)}.items():
+            # several configurations of the same library one after the other in this process (lengths go up and down, so
+            # a layout carried over from an earlier run shows), small values (many continued lines) and the Fortran maximum
+            done = []
+            for tag, (cl, fl) in {"base": (72, 72), "bigC": (400, 72), "bigF": (72, 120), "smallC": (40, 72), "smallF": (72, 40),
+                                  "maxF": (72, 132)}.items():
                 lib.options.update(C_line_length=cl, F_line_length=fl)
                 d = common.scratch()
                 try:
@@ -554,8 +803,11 @@ def linecfg_oracle(ctx, r, thorough):
                     cfg, exc, out = shroudrun.run_inproc([y], d)
                     ctx.count(1)
                     if exc is not None:
+                        hook.take()
                         ctx.fail("linecfg:exception", "Shroud failed with C_line_length=%d F_line_length=%d: %r" % (cl, fl, exc), {"yaml": lib.yaml()})
                         continue
+                    emitter_oracle(ctx, r, hook, lib.yaml(), list(done), em_reqs, em_impl, ndrive, (i, tag))
+                    done.append({"C_line_length": cl, "F_line_length": fl})
                     trees[tag] = shroudrun.read_tree(d)
                     cc = continued_comment(trees[tag])
                     ctx.count(1)
@@ -617,8 +869,10 @@ def linecfg_oracle(ctx, r, thorough):
                     ctx.count(1)
                     ctx.nontrivial(("linecfg", "longnames"))
                     if exc is not None:
+                        hook.take()
                         ctx.fail("linecfg:exception:longnames", "Shroud failed on long identifiers: %r" % (exc,), {"yaml": longlib.yaml()})
                     else:
+                        emitter_oracle(ctx, r, hook, longlib.yaml(), [], em_reqs, em_impl, 0, "longnames")
                         for fn, data in shroudrun.read_tree(d).items():
                             if fn.endswith(".f"):
                                 for ln, line in enumerate(data.decode().split("\n"), 1):
